@@ -41,7 +41,7 @@ def strategy(tier):
       (2, st.tuples(st.just('advance'), st.sampled_from([1, 2, 5, 10, 30])).map(list)),
   ]
   cfg = lb_config().flatmap(lambda c: st.sampled_from([0, 0, 3, 10, 20]).map(lambda d: dict(c, getservers_delay_ms=d)))
-  return st.fixed_dictionaries({'config': cfg, 'ops': sized_list(weighted(*pairs), 0, 70)})
+  return st.fixed_dictionaries({'config': cfg, 'ops': sized_list(weighted(*pairs), 0, 70 if tier == 'quick' else 180)})
 
 
 def execute(plan):
